@@ -125,6 +125,11 @@ def translate(pattern, ignorecase=True):
     while items and str(items[-1][0]) == 'AT' and str(items[-1][1]) == 'AT_BOUNDARY':
         trail = True
         items = items[:-1]
+    # a pattern anchored at the end / beginning of the text: the language of its matches is over-approximated by dropping the anchor
+    while items and str(items[-1][0]) == 'AT' and str(items[-1][1]) in ('AT_END', 'AT_END_STRING'):
+        items = items[:-1]
+    while items and str(items[0][0]) == 'AT' and str(items[0][1]) in ('AT_BEGINNING', 'AT_BEGINNING_STRING'):
+        items = items[1:]
     # a top-level alternation of \b...\b groups (function rules with several patterns)
     return _concat(_tr(items, ignorecase)), lead, trail
 
